@@ -1013,9 +1013,21 @@ func ruleNatKey(c *Ctx, a *udpAnchors) {
 		return ok
 	}
 	for _, g := range fns {
+		// an insertion written out in Add (no set helper)
+		for _, b := range g.Blocks {
+			for _, ins := range b.Instrs {
+				mu, ok := ins.(*ssa.MapUpdate)
+				if !ok || g == m.set || !p.AnyFrom(mu.Map, eng.Plain, func(x ssa.Value) bool { return eng.IsFieldLoad(x, m.mapT, m.mapField) }) {
+					continue
+				}
+				n++
+				x, ok := addrOf(mu.Key)
+				c.CheckAt("NATKEY", short(g)+":table-key-is-String()-of-Add's-client-address", mu, ok && addParam(x), "the table key used for insert/delete is not String() of Add's client address parameter")
+			}
+		}
 		for _, cl := range eng.Calls(g) {
 			call, ok := cl.(*ssa.Call)
-			if !ok || !(callTo(c, call, m.set) || callTo(c, call, m.del)) {
+			if !ok || !((m.set != nil && callTo(c, call, m.set)) || callTo(c, call, m.del)) {
 				continue
 			}
 			n++
@@ -1104,9 +1116,28 @@ func ruleOwnSock(c *Ctx, a *udpAnchors) {
 							okAll = false
 						}
 					case eng.TypeName(ar.Type()) == m.connT:
+						// the entry this Add stored: the result of the insertion helper, or — when the insertion is written out
+						// in Add — the fresh entry that Add puts into the table
 						g, _ := p.AllFrom(ar, deepF, func(v ssa.Value) bool {
-							cc, isC := baseRoot(v).(*ssa.Call)
-							return isC && callTo(c, cc, m.set)
+							if cc, isC := baseRoot(v).(*ssa.Call); isC && m.set != nil && callTo(c, cc, m.set) {
+								return true
+							}
+							al, isAl := v.(*ssa.Alloc)
+							if !isAl || eng.Root(al.Parent()) != m.add {
+								return false
+							}
+							for _, g := range eng.Family(m.add) {
+								for _, b := range g.Blocks {
+									for _, ins := range b.Instrs {
+										if mu, ok := ins.(*ssa.MapUpdate); ok && p.AnyFrom(mu.Map, eng.Plain, func(x ssa.Value) bool { return eng.IsFieldLoad(x, m.mapT, m.mapField) }) {
+											if p.AnyFrom(mu.Value, eng.Plain, func(x ssa.Value) bool { return x == ssa.Value(al) }) {
+												return true
+											}
+										}
+									}
+								}
+							}
+							return false
 						})
 						if !g {
 							okAll = false
